@@ -137,6 +137,34 @@ SymArray.min = _sa_min
 SymArray.mean = _sa_mean
 
 
+class IntSymArray(SymArray):
+    """object array standing in for an integer-dtype ndarray: values stored into it are truncated like numpy does"""
+
+    def __setitem__(self, key, value):
+        def tr(v):
+            if isinstance(v, SymReal):
+                return v.trunc()
+            if isinstance(v, SymBool):
+                return v.as_int()
+            if isinstance(v, (float, np.floating)):
+                if not math.isfinite(v):
+                    raise ValueError("cannot convert float NaN to integer")
+                return int(v)
+            if isinstance(v, Fraction):
+                return int(v)
+            return v
+        if isinstance(value, np.ndarray):
+            conv = np.empty(value.shape, dtype=object)
+            for idx in np.ndindex(value.shape):
+                conv[idx] = tr(value[idx])
+            value = conv
+        elif isinstance(value, (list, tuple)):
+            value = [tr(v) for v in value]
+        else:
+            value = tr(value)
+        np.ndarray.__setitem__(self, key, value)
+
+
 def obj_full(shape, value):
     if isinstance(shape, (int, np.integer)):
         shape = (int(shape),)
@@ -284,7 +312,13 @@ class NPProxy(object):
 
     def zeros(self, shape, dtype=float, **kw):
         if self._want_obj(dtype):
-            return obj_full(shape, 0)
+            out = obj_full(shape, 0)
+            try:
+                if dtype is not None and np.dtype(dtype).kind in 'iu':
+                    out = out.view(IntSymArray)      # assignments truncate, as they do for a real integer array
+            except TypeError:
+                pass
+            return out
         return real_np.zeros(shape, dtype=dtype, **kw)
 
     def ones(self, shape, dtype=float, **kw):
@@ -914,9 +948,48 @@ SPARSE = SparseProxy()
 #  scipy.signal
 # ======================================================================================================
 
+class _PeakFindingProxy(object):
+    """scipy.signal._peak_finding with peak_prominences modelled for object arrays (wlen given)"""
+
+    def __getattr__(self, name):
+        return getattr(real_signal._peak_finding, name)
+
+    def peak_prominences(self, x, peaks, wlen=None):
+        if not has_sym(x):
+            return real_signal._peak_finding.peak_prominences(x, peaks, wlen=wlen)
+        _used('signal.peak_prominences (written out: peak minus the higher of the two window minima)')
+        v = [lift(a) for a in np.asarray(x, dtype=object)]
+        n = len(v)
+        half = None if wlen is None else max(1, (int(math.ceil(wlen)) | 1) // 2)
+        proms = np.empty((len(peaks),), dtype=object)
+        lb = real_np.zeros(len(peaks), dtype=real_np.intp)
+        rb = real_np.zeros(len(peaks), dtype=real_np.intp)
+        for k, pk in enumerate(peaks):
+            pk = int(pk)
+            lo = 0 if half is None else max(0, pk - half)
+            hi = n - 1 if half is None else min(n - 1, pk + half)
+            # walk outwards until a higher sample is met; remember the lowest sample on the way
+            i, lmin, li = pk, v[pk], pk
+            while i >= lo and not bool(v[i] > v[pk]):
+                if bool(v[i] < lmin):
+                    lmin, li = v[i], i
+                i -= 1
+            i, rmin, ri = pk, v[pk], pk
+            while i <= hi and not bool(v[i] > v[pk]):
+                if bool(v[i] < rmin):
+                    rmin, ri = v[i], i
+                i += 1
+            base = lmin if bool(lmin >= rmin) else rmin
+            proms[k] = v[pk] - base
+            lb[k], rb[k] = li, ri
+        return proms.view(SymArray), lb, rb
+
+
 class SignalProxy(object):
     def __getattr__(self, name):
         return getattr(real_signal, name)
+
+    _peak_finding = _PeakFindingProxy()
 
     def find_peaks(self, x, *args, **kwargs):
         if not has_sym(x):
